@@ -34,6 +34,8 @@ pub struct Item {
     pub layer: &'static str, // "dtls" | "sctp"
     pub family: String,      // seed + mutation class (signature material)
     pub bytes: Vec<u8>,      // dtls: whole datagram; sctp: plaintext SCTP packet
+    /// further packets of the same kind injected right after `bytes` (a multi-step input)
+    pub chain: Vec<Vec<u8>>,
 }
 
 fn be16(v: u16) -> [u8; 2] {
@@ -134,21 +136,21 @@ pub fn sctp_catalog(thorough: bool) -> Vec<Item> {
         while padded.len() % 4 != 0 {
             padded.push(0);
         }
-        out.push(Item { layer: "sctp", family: format!("{name};seed"), bytes: sctp_packet_raw(&padded) });
+        out.push(Item { layer: "sctp", family: format!("{name};seed"), bytes: sctp_packet_raw(&padded), chain: vec![] });
         // (a) value truncated to every length, chunk length consistent
         for l in 0..value.len() {
             let mut c = wire::raw_chunk(t, flags, &value[..l]);
             while c.len() % 4 != 0 {
                 c.push(0);
             }
-            out.push(Item { layer: "sctp", family: format!("{name};value-truncated"), bytes: sctp_packet_raw(&c) });
+            out.push(Item { layer: "sctp", family: format!("{name};value-truncated"), bytes: sctp_packet_raw(&c), chain: vec![] });
         }
         // (b) chunk length field substituted, body unchanged
         let actual = full.len() as u16;
         for l in [0u16, 1, 2, 3, 4, 5, actual.wrapping_sub(1), actual + 1, actual + 4, 0xFFFF] {
             let mut c = padded.clone();
             c[2..4].copy_from_slice(&l.to_be_bytes());
-            out.push(Item { layer: "sctp", family: format!("{name};chunk-length-field"), bytes: sctp_packet_raw(&c) });
+            out.push(Item { layer: "sctp", family: format!("{name};chunk-length-field"), bytes: sctp_packet_raw(&c), chain: vec![] });
         }
         // (c) every aligned 16-bit field of the value replaced by boundary values
         let vals: &[u16] = if thorough { &[0, 1, 4, 0x7FFF, 0x8000, 0xFFFF] } else { &[0, 1, 0xFFFF] };
@@ -160,22 +162,39 @@ pub fn sctp_catalog(thorough: bool) -> Vec<Item> {
                 while c.len() % 4 != 0 {
                     c.push(0);
                 }
-                out.push(Item { layer: "sctp", family: format!("{name};field16-substituted"), bytes: sctp_packet_raw(&c) });
+                out.push(Item { layer: "sctp", family: format!("{name};field16-substituted"), bytes: sctp_packet_raw(&c), chain: vec![] });
             }
         }
         // (d) two copies of the chunk bundled, and the chunk followed by 1..3 stray bytes
         let mut two = padded.clone();
         two.extend_from_slice(&padded);
-        out.push(Item { layer: "sctp", family: format!("{name};bundled-twice"), bytes: sctp_packet_raw(&two) });
+        out.push(Item { layer: "sctp", family: format!("{name};bundled-twice"), bytes: sctp_packet_raw(&two), chain: vec![] });
         for extra in 1..4usize {
             let mut c = padded.clone();
             c.extend(std::iter::repeat(0xEE).take(extra));
-            out.push(Item { layer: "sctp", family: format!("{name};trailing-bytes"), bytes: sctp_packet_raw(&c) });
+            out.push(Item { layer: "sctp", family: format!("{name};trailing-bytes"), bytes: sctp_packet_raw(&c), chain: vec![] });
+        }
+    }
+    // multi-step inputs: three well-formed FORWARD TSNs in a row on the existing stream 0, each
+    // advancing the cumulative TSN, with every triple of boundary stream sequence numbers (the
+    // receiver's per-stream SSN arithmetic is only reachable through a sequence)
+    let edge: &[u16] = if thorough { &[0, 1, 0x7FFE, 0x7FFF, 0x8000, 0x8001, 0xFFFD, 0xFFFE, 0xFFFF] } else { &[0, 1, 0x7FFE, 0x8000, 0xFFFD, 0xFFFF] };
+    let fwd = |cum: u32, ssn: u16| {
+        let mut v = cum.to_be_bytes().to_vec();
+        v.extend_from_slice(&be16(0));
+        v.extend_from_slice(&be16(ssn));
+        sctp_packet_raw(&wire::raw_chunk(192, 0, &v))
+    };
+    for &s1 in edge {
+        for &s2 in edge {
+            for &s3 in edge {
+                out.push(Item { layer: "sctp", family: format!("FORWARD-TSN;chain3;ssn={s1:#06x},{s2:#06x},{s3:#06x}"), bytes: fwd(1003, s1), chain: vec![fwd(1004, s2), fwd(1005, s3)] });
+            }
         }
     }
     // packets shorter than the common header / header only / bad CRC
     for l in 0..13usize {
-        out.push(Item { layer: "sctp", family: "short-packet".into(), bytes: vec![0x13; l] });
+        out.push(Item { layer: "sctp", family: "short-packet".into(), bytes: vec![0x13; l], chain: vec![] });
     }
     out
 }
@@ -201,9 +220,9 @@ pub fn dtls_catalog(thorough: bool) -> Vec<Item> {
     ch.encode(&mut b);
     let ch_body = b.to_vec();
     let l = ch_body.len() as u32;
-    out.push(Item { layer: "dtls", family: "ClientHello;seed".into(), bytes: hs_record(1, 0, l, 0, l, &ch_body) });
+    out.push(Item { layer: "dtls", family: "ClientHello;seed".into(), bytes: hs_record(1, 0, l, 0, l, &ch_body), chain: vec![] });
     for cut in 0..ch_body.len() {
-        out.push(Item { layer: "dtls", family: "ClientHello;body-truncated".into(), bytes: hs_record(1, 0, cut as u32, 0, cut as u32, &ch_body[..cut]) });
+        out.push(Item { layer: "dtls", family: "ClientHello;body-truncated".into(), bytes: hs_record(1, 0, cut as u32, 0, cut as u32, &ch_body[..cut]), chain: vec![] });
     }
     // every byte of the first 80 substituted by boundary values (length bytes live there)
     let vals: &[u8] = if thorough { &[0, 1, 0x7F, 0x80, 0xFE, 0xFF] } else { &[0, 0xFF] };
@@ -211,7 +230,7 @@ pub fn dtls_catalog(thorough: bool) -> Vec<Item> {
         for x in vals {
             let mut c = ch_body.clone();
             c[pos] = *x;
-            out.push(Item { layer: "dtls", family: "ClientHello;byte-substituted".into(), bytes: hs_record(1, 0, l, 0, l, &c) });
+            out.push(Item { layer: "dtls", family: "ClientHello;byte-substituted".into(), bytes: hs_record(1, 0, l, 0, l, &c), chain: vec![] });
         }
     }
     // every other handshake type with short bodies
@@ -219,7 +238,7 @@ pub fn dtls_catalog(thorough: bool) -> Vec<Item> {
         for n in [0usize, 1, 2, 3, 4, 33, 34, 35, 40, 70] {
             let body: Vec<u8> = (0..n).map(|i| (i as u8).wrapping_mul(3)).collect();
             for seq in [0u16, 1, 2] {
-                out.push(Item { layer: "dtls", family: format!("handshake-type-{t};short-body"), bytes: hs_record(t, seq, n as u32, 0, n as u32, &body) });
+                out.push(Item { layer: "dtls", family: format!("handshake-type-{t};short-body"), bytes: hs_record(t, seq, n as u32, 0, n as u32, &body), chain: vec![] });
             }
         }
     }
@@ -227,7 +246,7 @@ pub fn dtls_catalog(thorough: bool) -> Vec<Item> {
     for (length, off, flen, blen) in [(10u32, 20u32, 5u32, 5usize), (5, 0, 10, 10), (0xFFFFFF, 0, 4, 4), (0xFFFFFF, 0xFFFFF0, 4, 4), (8, 4, 4, 4), (8, 0, 4, 4), (0, 0, 0, 0), (4, 0, 8, 4)] {
         for t in [1u8, 2, 11, 12, 16] {
             for seq in [0u16, 1, 2, 3] {
-                out.push(Item { layer: "dtls", family: "fragment-fields".into(), bytes: hs_record(t, seq, length, off, flen, &vec![7u8; blen]) });
+                out.push(Item { layer: "dtls", family: "fragment-fields".into(), bytes: hs_record(t, seq, length, off, flen, &vec![7u8; blen]), chain: vec![] });
             }
         }
     }
@@ -237,14 +256,14 @@ pub fn dtls_catalog(thorough: bool) -> Vec<Item> {
             for n in [0usize, 1, 2, 7, 8, 16, 23, 24, 25, 64] {
                 let body: Vec<u8> = (0..n).map(|i| (i as u8) ^ 0x5a).collect();
                 let rec = wire::encode_record(ctype, epoch, 3, &body);
-                out.push(Item { layer: "dtls", family: format!("record;type={ctype};epoch={epoch}"), bytes: rec.clone() });
+                out.push(Item { layer: "dtls", family: format!("record;type={ctype};epoch={epoch}"), bytes: rec.clone(), chain: vec![] });
                 if n == 24 {
                     for cut in 0..rec.len() {
-                        out.push(Item { layer: "dtls", family: "record;truncated".into(), bytes: rec[..cut].to_vec() });
+                        out.push(Item { layer: "dtls", family: "record;truncated".into(), bytes: rec[..cut].to_vec(), chain: vec![] });
                     }
                     let mut longer = rec.clone();
                     longer[11..13].copy_from_slice(&0xFFFFu16.to_be_bytes());
-                    out.push(Item { layer: "dtls", family: "record;length-field-too-large".into(), bytes: longer });
+                    out.push(Item { layer: "dtls", family: "record;length-field-too-large".into(), bytes: longer, chain: vec![] });
                 }
             }
         }
@@ -306,6 +325,24 @@ pub fn run_case(item: &Item, stage: Stage, victim: Side, seed: u64) -> Option<Li
     sim::run_with_watchdog(seed, Duration::from_secs(15), move || {
         Box::pin(async move {
             crate::LAST_PANIC_LOC.with(|l| l.borrow_mut().clear());
+            // Own the SCTP randomness: both initial TSNs are 1000 - the catalogue's TSNs (1000..1005)
+            // are then the next ones the victim expects from its peer, so DATA / FORWARD-TSN items
+            // are in range instead of landing at a random distance - and every later random_u32()
+            // comes from a stream derived from the seed (replays are exact).
+            rustrtc::verif::clear_forced_u32();
+            rustrtc::verif::force_u32(&[0x1111_1111, 1000, 0x2222_2222, 1000]);
+            {
+                let mut x = seed.wrapping_mul(0x9E3779B97F4A7C15).wrapping_add(0xD1B54A32D192ED03);
+                let vals: Vec<u32> = (0..1024)
+                    .map(|_| {
+                        x ^= x << 13;
+                        x ^= x >> 7;
+                        x ^= x << 17;
+                        (x >> 16) as u32
+                    })
+                    .collect();
+                rustrtc::verif::force_u32(&vals);
+            }
             let start = tokio::time::Instant::now();
             let (net_tx, mut net_rx) = tokio::sync::mpsc::unbounded_channel();
             let certs = sim::certs();
@@ -335,6 +372,21 @@ pub fn run_case(item: &Item, stage: Stage, victim: Side, seed: u64) -> Option<Li
                     if let Some(data) = dg {
                         obs.injected = true;
                         sim::deliver(&a, &b, &Dgram { data, from: paddr, to: vaddr }, &mut buf).await;
+                    }
+                    for extra in &item.chain {
+                        // each further packet after the victim has processed the previous one
+                        tokio::time::sleep(Duration::from_millis(2)).await;
+                        let dg = if item.layer == "sctp" {
+                            sim::crypto_of(&a).or(sim::crypto_of(&b)).map(|c| {
+                                seq += 1;
+                                seal_as_peer(&c, victim.other(), seq, extra)
+                            })
+                        } else {
+                            Some(extra.clone())
+                        };
+                        if let Some(data) = dg {
+                            sim::deliver(&a, &b, &Dgram { data, from: paddr, to: vaddr }, &mut buf).await;
+                        }
                     }
                 }};
             }
@@ -449,7 +501,7 @@ pub fn live_part(rep: &mut crate::Report, thorough: bool, seed: u64) -> u64 {
             None => rep.violation(crate::Violation {
                 signature: format!("live;hang;layer={};item={};stage={:?};victim={}", it.layer, it.family, st, v.name()),
                 detail: "the execution did not finish within the real-time watchdog (unbounded loop)".into(),
-                replay: json!({"part": "live", "layer": it.layer, "family": it.family, "bytes": crate::hex(&it.bytes), "stage": format!("{st:?}"), "victim": v.name()}),
+                replay: json!({"part": "live", "layer": it.layer, "family": it.family, "bytes": crate::hex(&it.bytes), "chain": it.chain.iter().map(|c| crate::hex(c)).collect::<Vec<_>>(), "stage": format!("{st:?}"), "victim": v.name()}),
             }),
             Some(o) => {
                 if !o.injected {
@@ -462,7 +514,7 @@ pub fn live_part(rep: &mut crate::Report, thorough: bool, seed: u64) -> u64 {
                     rep.violation(crate::Violation {
                         signature: format!("live;panic[{}];layer={};item={};stage={:?}", crate::panic_class(p), it.layer, it.family, st),
                         detail: format!("a task panicked at {p} after this datagram was delivered to {}", v.name()),
-                        replay: json!({"part": "live", "layer": it.layer, "family": it.family, "bytes": crate::hex(&it.bytes), "stage": format!("{st:?}"), "victim": v.name()}),
+                        replay: json!({"part": "live", "layer": it.layer, "family": it.family, "bytes": crate::hex(&it.bytes), "chain": it.chain.iter().map(|c| crate::hex(c)).collect::<Vec<_>>(), "stage": format!("{st:?}"), "victim": v.name()}),
                     });
                 }
             }
@@ -479,7 +531,8 @@ pub fn live_part(rep: &mut crate::Report, thorough: bool, seed: u64) -> u64 {
 
 pub fn replay_live(r: &serde_json::Value, seed: u64) -> i32 {
     let layer = if r["layer"] == "sctp" { "sctp" } else { "dtls" };
-    let item = Item { layer, family: r["family"].as_str().unwrap_or("").to_string(), bytes: crate::unhex(r["bytes"].as_str().unwrap_or("")) };
+    let item = Item { layer, family: r["family"].as_str().unwrap_or("").to_string(), bytes: crate::unhex(r["bytes"].as_str().unwrap_or("")),
+        chain: r["chain"].as_array().map(|a| a.iter().map(|x| crate::unhex(x.as_str().unwrap_or(""))).collect()).unwrap_or_default() };
     let stage = [Stage::PreHandshake, Stage::MidHandshake, Stage::DtlsUpSctpDown, Stage::Established, Stage::AfterAbort]
         .into_iter()
         .find(|s| format!("{s:?}") == r["stage"].as_str().unwrap_or(""))
